@@ -99,11 +99,32 @@ theorem parse_sound (s : Str) (e : Expr) (h : parseExpr s = .ok e) :
   · cases h
   · next c rest hr =>
     split at h
-    · next hrest =>
-      obtain ⟨hd, hf⟩ := (run_sound Gen.XPath.env _).1 _ _ _ _ hr
-      have : rest = [] := by cases rest <;> simp_all
-      subst this
-      exact ⟨c, hd, by simpa using hf⟩
     · cases h
+    · split at h
+      · next hrest =>
+        obtain ⟨hd, hf⟩ := (run_sound Gen.XPath.env _).1 _ _ _ _ hr
+        have : rest = [] := by cases rest <;> simp_all
+        subst this
+        exact ⟨c, hd, by simpa using hf⟩
+      · cases h
+
+/-- no accepted expression nests parentheses, predicates and function arguments deeper than the
+    limit read from the source: every recursion over an accepted expression is bounded -/
+theorem depth_refused (s : Str) (e : Expr) (h : parseExpr s = .ok e) (hlim : Gen.XPath.maxDepth_expr ≠ 0) :
+    ∃ c rest, run Gen.XPath.env (xpathFuel s) (.nt Gen.XPath.N.parse) s = .ok c rest ∧
+      exprDepth c ≤ Gen.XPath.maxDepth_expr := by
+  unfold parseExpr at h
+  split at h
+  · cases h
+  · cases h
+  · next c rest hr =>
+    refine ⟨c, rest, hr, ?_⟩
+    split at h
+    · cases h
+    · next hd =>
+      apply Nat.le_of_not_lt
+      intro hgt
+      apply hd
+      simp [hlim, hgt]
 
 end XmlRs.C08
